@@ -3,7 +3,10 @@ package checks
 import (
 	"encoding/json"
 	"fmt"
+	"os"
+	"path/filepath"
 	"strings"
+	"sync"
 	"time"
 
 	"verifharness/container"
@@ -398,14 +401,14 @@ func mutate(stream []byte, ps *container.Stream, m totMut, ckSize int) []byte {
 	return out
 }
 
-func runTotCase(c *totCase) (res totResult) {
+// totInput builds the hostile input of a case (and, for headerless seeds, the reader parameters)
+func totInput(c *totCase) (in []byte, hc *kz.Cfg, unbuilt string) {
 	_, stream, err := c.R.build()
 	if err != nil {
-		return totResult{Outcome: "unbuilt", Detail: err.Error()}
+		return nil, nil, err.Error()
 	}
 	var ps *container.Stream
 	var perr error
-	var hc *kz.Cfg
 	if c.R.Cfg.Headerless {
 		cf := c.R.Cfg
 		hc = &cf
@@ -423,9 +426,9 @@ func runTotCase(c *totCase) (res totResult) {
 		ps, perr = container.Parse(stream)
 	}
 	if perr != nil {
-		return totResult{Outcome: "unbuilt", Detail: perr.Error()}
+		return nil, nil, perr.Error()
 	}
-	in := mutate(stream, ps, c.Mut, int(c.R.Cfg.Checksum))
+	in = mutate(stream, ps, c.Mut, int(c.R.Cfg.Checksum))
 	if hc != nil {
 		// headerless reader: the stream starts at the first block; header mutations become parameter mismatches
 		if c.Mut.Kind != "random-bytes" && c.Mut.Kind != "truncate" {
@@ -443,6 +446,14 @@ func runTotCase(c *totCase) (res totResult) {
 			hc.Entropy = kz.Entropies[int(c.Mut.A)%len(kz.Entropies)]
 			hc.Transform = kz.Transforms[int(c.Mut.B)%len(kz.Transforms)]
 		}
+	}
+	return in, hc, ""
+}
+
+func runTotCase(c *totCase) (res totResult) {
+	in, hc, unbuilt := totInput(c)
+	if unbuilt != "" {
+		return totResult{Outcome: "unbuilt", Detail: unbuilt}
 	}
 	res.InLen = len(in)
 	installRecoverMonitor()
@@ -476,7 +487,7 @@ func c03(run *core.Run, replay string) {
 	run.SetRule("structure-aware hostile inputs derived from valid seed streams of every transform and entropy codec through the independent container code: header fields rewritten with the header check recomputed " +
 		"(entropy / transform ids incl. reserved and gapped chains, block size, size field, version, checksum size), forged block length prefixes and widths (up to 2^34 bits), mode byte / skip flags / stored length, " +
 		"codec headers (first bytes of the entropy or raw transform data: Huffman/ANS/range tables, LZ/ROLZ/RLT/TEXT/UTF headers, every BWT primary index incl. > 4 MiB blocks), random payload damage, truncation, " +
-		"duplicated / dropped / swapped blocks, copy blocks longer than the block size with a small declared size, degenerate blocks (stored length 1..40 with declared inner sizes 0 / 1 / huge, checksum on and off), garbage after a valid header; decoded in child processes with jobs 1..8 under a CPU budget. " +
+		"duplicated / dropped / swapped blocks, copy blocks longer than the block size with a small declared size, degenerate blocks (stored length 1..40 with declared inner sizes 0 / 1 / huge, checksum on and off), garbage after a valid header; decoded in child processes with jobs 1..8 under a CPU budget; a sample of the same inputs is decompressed by the built command-line tool (no Go crash, exits on its own). " +
 		"Oracle: the child survives, no panic escapes Read, CPU budget not exceeded twice. non-trivial = the input differs from the seed and the decoder ended with an error or recovered a panic; distinct = (seed, mutation, jobs)")
 	run.Assume("'bounded by the declared block sizes' is restated as a CPU budget of 120 s per input (isolated re-run: 480 s; CPU time includes the spinning of sibling tasks); allocations up to the declared (possibly forged) lengths are legitimate")
 	if replay != "" {
@@ -661,6 +672,52 @@ func c03(run *core.Run, replay string) {
 		}
 		if tr.Outcome == "panic-escaped" {
 			run.Violate("C03 panic-escaped mutation="+c.Mut.Kind, fmt.Sprintf("[%s jobs=%d %v] %s", c.R.Name, c.Jobs, c.Mut, tr.Detail), c)
+		}
+	}
+	// the command-line tool on hostile archives (its own recover wrapper, header printing, size check, file handling): a sample
+	// of the same inputs is decompressed by the built binary; it must exit on its own with an error code, never with a Go crash
+	if _, err := buildCLI(); err == nil {
+		var sample []*totCase
+		stride := max(1, len(tcs)/run.Pick(160, 1500))
+		for i := 0; i < len(tcs); i += stride {
+			if !tcs[i].R.Cfg.Headerless && tcs[i].R.Size < 1<<20 {
+				sample = append(sample, tcs[i])
+			}
+		}
+		var cmu sync.Mutex
+		core.ParallelDo(len(sample), 8, func(i int) {
+			c := sample[i]
+			in, _, unbuilt := totInput(c)
+			if unbuilt != "" {
+				return
+			}
+			work, err := os.MkdirTemp(cliTmpRoot, "c03-")
+			if err != nil {
+				return
+			}
+			defer os.RemoveAll(work)
+			os.WriteFile(filepath.Join(work, "in.knz"), in, 0o644)
+			args := []string{"-d", "-i", "in.knz", "-o", "out.bin", "-j", fmt.Sprint(1 + i%4), "-v", fmt.Sprint([]int{0, 1, 4}[i%3])}
+			if i%7 == 0 {
+				args = append(args, "--from=2")
+			}
+			code, so, se := runToolPiped(work, nil, 0, args...)
+			cmu.Lock()
+			defer cmu.Unlock()
+			run.Eval(1)
+			run.Count("cli_hostile_inputs", 1)
+			if code != 0 {
+				run.Count("cli_rejected_with_error_code", 1)
+			}
+			txt := se + string(so)
+			if code == -9 {
+				run.Inconclusive(fmt.Sprintf("tool did not finish within 10 min on %s %v", c.R.Name, c.Mut))
+			} else if strings.Contains(txt, "goroutine ") || strings.Contains(txt, "panic: ") || strings.Contains(txt, "fatal error: ") || code == 2 && strings.Contains(txt, "runtime.") {
+				run.Violate("C03 cli-crash mutation="+c.Mut.Kind, fmt.Sprintf("[%s %v] kanzi -d exits %d with a Go crash: %s", c.R.Name, c.Mut, code, core.Trunc(txt, 1200)), c)
+			}
+		})
+		if cliTmpRoot != "" {
+			os.RemoveAll(cliTmpRoot)
 		}
 	}
 	nrec := 0
